@@ -289,9 +289,23 @@ def c11(tier):
                 elif cur is not None:
                     texts[cur] += line
             for variant in ("plain", "invalid-utf8-sibling", "directory-named-xsd", "dangling-symlink", "fifo-like-empty", "uppercase-extension",
-                            "every-sibling-a-symlink"):
+                            "every-sibling-a-symlink", "file-names-with-dots-and-non-ascii"):
                 d = os.path.join(droot, f"g{k}-{variant}")
                 os.makedirs(d)
+                if variant == "file-names-with-dots-and-non-ascii":
+                    # the same graph under other file names (several dots, non-ASCII letters, a doubled extension, upper case in the
+                    # stem): every name ends in .xsd, every schemaLocation says the new name
+                    pool = ["common.v1.xsd", "a.b.c.xsd", "types.xsd.xsd", "ünï-cödé.xsd", "Upper.Case.xsd", "x_y-z.2024.01.xsd", "1.xsd", "v2.0-final.xsd"]
+                    rot = k % len(pool)
+                    new_name = {f"f{i}.xsd": pool[(i + rot) % len(pool)] for i in range(n)}
+                    for name, t in texts.items():
+                        for old_n, new_n in new_name.items():
+                            t = t.replace(f'"{old_n}"', f'"{new_n}"')
+                        with open(os.path.join(d, new_name[name]), "w", encoding="utf-8") as fh:
+                            fh.write(t)
+                    dir_jobs.append({"id": 20_000_000 + len(dir_jobs), "op": "gen", "dir": d, "start": new_name[f"f{s}.xsd"], "variant": variant,
+                                     "base_id": j["id"], "cpu_budget_s": 10, "where": {"n": n, "mask": mask, "start": s}})
+                    continue
                 for name, t in texts.items():
                     if variant == "every-sibling-a-symlink" and name != f"f{s}.xsd":
                         # the real files live elsewhere under other names; the directory holds links to them
